@@ -614,4 +614,38 @@ def paddedText (lastLen : Nat) (text : Str) : Str := joinNL ((splitNL text).map 
 /-- the line(s) a drawing call puts on a plain output -/
 def plainLine (e : Event) : Option Str := e.res.frame.map (fun f => paddedText e.pre.lastLen f.text)
 
+/-! ## Deciders for the hypotheses of the theorems (Props/C16 `hyps_decide`)
+
+The hypotheses `SingleChars`, `barWidth < 2^52`, `CleanCfg`, `CleanOp` (Lemmas/Progress*.lean) speak
+about the configuration of the bar and the texts passed to it.  These are their executable versions;
+the driver evaluates them on the configuration it builds for every generated case (`hyp` of entry
+`c16.run`), the harness evaluates the same conditions on the REAL `ProgressBar` object after its
+setters ran, and the two are compared. -/
+
+/-- no line break, no carriage return -/
+def cleanB (s : Str) : Bool := s.all (fun ch => ch != '\n' && ch != '\r')
+
+/-- the three bar characters are single characters -/
+def singleCharsB (c : Config) : Bool :=
+  c.emptyChar.length == 1 && c.progressChar.length == 1 &&
+  (match c.barChar with | some b => b.length == 1 | none => true)
+
+/-- the bar width is a binary64 integer -/
+def barWidthOkB (c : Config) : Bool := decide (c.barWidth < 2 ^ 52)
+
+/-- the text given to `set_format` and the three bar characters are single-line -/
+def cleanCfgB (c : Config) : Bool :=
+  (match c.internalFormat with | some f => cleanB f | none => true) &&
+  cleanB c.emptyChar && cleanB c.progressChar &&
+  (match c.barChar with | some b => cleanB b | none => true)
+
+def cleanOpB : Op → Bool
+  | .setMessage text => cleanB text
+  | _ => true
+
+def cleanOpsB (ops : List (Op × Nat)) : Bool := ops.all (fun x => cleanOpB x.1)
+
+/-- no call of the history raised -/
+def noErrB (evs : List Event) : Bool := evs.all (fun e => e.res.err.isNone)
+
 end Clikit.Progress
